@@ -18,7 +18,7 @@ CHECKS = {
                 "Lipschitz bound; for every accuracy-stopped run whose reliability precondition holds (evaluated "
                 "from the observed history) the stated bound on best - f* is asserted. Exploration, not proof: the "
                 "theorem is quantified over all Lipschitz functions and the check samples them; the bound has a "
-                "factor 2-3 of slack, so it detects damaged searches, not marginally weakened ones. Runs include 1-D thin boxes, eps down to 1e-6 and a first Solve with a small budget that is raised before the deciding Solve. A quarter of the cases refine; about 1 % are very long runs (32,000 trials) on a flat objective with one narrow well; objectives may carry a level of 1e2..1e7 and problems may return a new value holder.",
+                "factor 2-3 of slack, so it detects damaged searches, not marginally weakened ones. Runs include 1-D thin boxes, eps down to 1e-6 and a first Solve with a small budget that is raised before the deciding Solve. A quarter of the cases refine; about 1 % are very long runs (32,000 trials) on a flat objective with one narrow well; objectives may carry a level of 1e2..1e7 and problems may return a new value holder. First trials may be requested in DoGlobalIteration batches (incl. one large batch on a steep zigzag); the budget raise also runs on boxes with all sides below 1.",
                 note="Trusted: closed-form minima / Lipschitz bounds of the generated families (vlib/objectives.py), "
                 "the independent AGP model (vlib/agp.py), history taken from listener items. Precondition evaluated "
                 "with M at the last decision, conclusion with final M (subset of the stated hypothesis).",
@@ -27,7 +27,7 @@ CHECKS = {
                 "of every generated run is replayed in an independent re-statement of the AGP decision rule",
                 text="Each generated run (all objective families incl. constant/step/quantised ones, N=1..5, Solve "
                 "or DoGlobalIteration batches) is replayed trial by trial in an independent model: arg-max interval "
-                "(ties free), new-point formula, strict interior, no repeated coordinate, first trial at 0.5. Runs may continue 50-500 trials past a small itersLimit, with an optional Solve and an optional DoLocalRefinement in between; user problems may return a new value holder or numpy scalars.",
+                "(ties free), new-point formula, strict interior, no repeated coordinate, first trial at 0.5. Runs may continue 50-500 trials past a small itersLimit, with an optional Solve and an optional DoLocalRefinement in between; user problems may return a new value holder or numpy scalars. A transient objective failure may occur between the trials.",
                 note="Trusted: vlib/agp.py (60-line model), Hypothesis generators; tolerances 1e-9 relative on "
                 "characteristics and 1e-12+1e-9*len on points.", ref="3/C02"),
     "C03": dict(cat="exploration", tech="property-based testing (Hypothesis): history-based oracle for evaluation "
@@ -35,7 +35,7 @@ CHECKS = {
                 "(itersLimit 1/2, eps>=1, eps equal to a reachable Hoelder length)",
                 text="One Solve() per generated (objective, box, r, eps, itersLimit); the number of evaluations, the "
                 "reported counts, the budget, the exact stopping index and the reported accuracy are recomputed from "
-                "the observed history. Termination is decided by an evaluation-count guard. A quarter of the cases spend budget through DoGlobalIteration first and call Solve repeatedly; a sixth raise itersLimit after a first Solve. A tenth of the cases run into the float resolution under an executed-line termination bound; startPoint may be set.",
+                "the observed history. Termination is decided by an evaluation-count guard. A quarter of the cases spend budget through DoGlobalIteration first and call Solve repeatedly; a sixth raise itersLimit after a first Solve. A tenth of the cases run into the float resolution under an executed-line termination bound; startPoint may be set. Objectives that start returning NaN or an infinity must not keep Solve from returning.",
                 note="Trusted: independent model for interval lengths; strictness of '<' read from the solver's own "
                 "reported accuracy; infinite loops without evaluations only surface as a watchdog (exit 2).",
                 ref="3/C03"),
@@ -43,20 +43,20 @@ CHECKS = {
                 "observed inside listener callbacks, after every call and on every returned Solution",
                 text="Mixed DoGlobalIteration/Solve call sequences on generated objectives (incl. many equal values, "
                 "refinement on/off); at every observation point the reported best is matched against the Calculate "
-                "log prefix of that moment (bit-equal point, logged and re-evaluated value, nothing smaller). Runs with and without a listener, with the first Solution object kept and re-read after every later call, and with a second solver stepped in between.",
+                "log prefix of that moment (bit-equal point, logged and re-evaluated value, nothing smaller). Runs with and without a listener, with the first Solution object kept and re-read after every later call, and with a second solver stepped in between. startPoint may be set; the second solver may hold the same SolverParameters object and be the next problem of a series; a shipped static painter may be attached (its probes are dropped from the log).",
                 note="Trusted: the logging Problem wrapper; observations inside callbacks are snapshots verified after "
                 "the call returns.", ref="3/C04"),
     "C05": dict(cat="exploration", tech="property-based testing (Hypothesis): box-containment invariant over the "
                 "evaluation log plus metamorphic check of refinement (never worse, value = objective at point)",
                 text="Generated objectives whose descent direction leaves the box (linear, outside-vertex bowls, "
-                "kinks on faces), all dimensions, thin and far-from-origin boxes, refinement on/off, tiny budgets. Refinement may be requested explicitly (DoLocalRefinement(k), repeated, alternating with global iterations); integer-typed boxes; another solver may run before the result is read.",
+                "kinks on faces), all dimensions, thin and far-from-origin boxes, refinement on/off, tiny budgets. Refinement may be requested explicitly (DoLocalRefinement(k), repeated, alternating with global iterations); integer-typed boxes; another solver may run before the result is read. startPoint may lie beyond the box.",
                 note="Containment tolerance 1e-12*(|lower|+|upper|+width); global phase = first numberOfGlobalTrials "
                 "log entries.", ref="3/C05"),
     "C06": dict(cat="exploration", tech="property-based testing (Hypothesis): after every call the search "
                 "information is traversed and compared with the evaluation log, a fresh Evolvent and the listener's "
                 "items (model = multiset of evaluations)",
                 text="Order, links, count, interval lengths, stored points (bit-equal to a fresh evolvent image) and "
-                "stored values are checked after every DoGlobalIteration/Solve call of generated runs. Cases include SolverParameters.startPoint, runs pushed to the float resolution of the curve coordinate, and problems that return a new value holder.",
+                "stored values are checked after every DoGlobalIteration/Solve call of generated runs. Cases include SolverParameters.startPoint, runs pushed to the float resolution of the curve coordinate, and problems that return a new value holder. An observer may replace the problem object's bound attributes during the run; a shipped static painter may be attached.",
                 note="refineSolution=False; length tolerance 1e-12 relative.", ref="3/C06"),
     "C07": dict(cat="exploration", tech="exhaustive enumeration of all subintervals up to N*m<=20 (quick) / 24 "
                 "(thorough) with an induction step over levels, plus Hypothesis-generated deep cases (exact dyadic x, "
@@ -103,7 +103,7 @@ CHECKS = {
                 "oracle = each solver run alone (A-B-A)",
                 text="Rules create, step, solve and read up to four solvers with different problems; after every rule "
                 "every solver's log must be a prefix of its solo log, its search information must pass the C06 "
-                "invariants and every Solution ever returned must still report its own solver's optimum. Problems have N=1..7; solvers may share one SolverParameters object or the default; refining Solve calls are compared in full with the solo run. Sub-check shared_pairs: two solvers on one SolverParameters object (incl. solvers driven into the float-resolution branch) against the same calls on separate objects; shipped problems incl. Grishagin; densities 6-12; startPoint.",
+                "invariants and every Solution ever returned must still report its own solver's optimum. Problems have N=1..7; solvers may share one SolverParameters object or the default; refining Solve calls are compared in full with the solo run. Sub-check shared_pairs: two solvers on one SolverParameters object (incl. solvers driven into the float-resolution branch) against the same calls on separate objects; shipped problems incl. Grishagin; densities 6-12; startPoint. numpy's error state must stay as it was. Sub-check same_problem: two solvers with different parameters on ONE problem object, one possibly re-targeted through its own evolvent, against the same calls with a problem object each.",
                 note="Solo runs are computed in the same process before and after the interleaved phase.",
                 ref="3/C12"),
     "C13": dict(cat="exploration", tech="property-based testing (Hypothesis) over listener classes generated by "
@@ -111,7 +111,7 @@ CHECKS = {
                 "without listeners; parsing of the console report",
                 text="Every subset of overridden callbacks, combinations with the shipped console and painting "
                 "listeners (Agg backend, temporary directory), every batching: notification count/order/content via "
-                "a shared event counter, and equality of trial sequence and result with the listener-free run. Includes refineSolution=True, value-equal listeners and objective faults with listeners attached (weak oracle: no phantom trial, nothing escapes Solve).",
+                "a shared event counter, and equality of trial sequence and result with the listener-free run. Includes refineSolution=True, value-equal listeners and objective faults with listeners attached (weak oracle: no phantom trial, nothing escapes Solve). User callbacks use parameter names of their own; problems may lack a dimension attribute.",
                 note="Painters' extra objective probes are recognised by event number and excluded from the trial log; "
                 "solvingTime is excluded from result comparison.", ref="3/C13"),
     "C14": dict(cat="exploration", tech="property-based testing over all 400 GKLS functions with generated points "
@@ -119,7 +119,7 @@ CHECKS = {
                 "and a golden reference recorded from the pinned commit",
                 text="Structure (10 minimisers, disjoint balls, paraboloid outside, prescribed values, global minimum "
                 "at class distance/radius/value), continuity across ball boundaries with a derived slope bound, and "
-                "reproducibility against golden/gkls_reference.json and across repeated constructions. Also: an object regenerated with function.SetFunctionNumber equals a new one; hard-class namesakes built in the same process do not interfere.",
+                "reproducibility against golden/gkls_reference.json and across repeated constructions. Also: an object regenerated with function.SetFunctionNumber equals a new one; hard-class namesakes built in the same process do not interfere. The tables of an existing function are compared again after other functions were constructed.",
                 note="Golden file shows the generator did not change since the pinned commit; agreement with the "
                 "published C generator is not decidable offline.", ref="3/C14"),
     "C15": dict(cat="exploration", tech="stateful property-based testing (Hypothesis RuleBasedStateMachine): "
@@ -132,7 +132,7 @@ CHECKS = {
                 "generated run and nine exception types in three construction forms, oracle = prefix of the clean run + C06 invariants",
                 text="For each generated problem the clean run is recorded, then the objective is armed to raise at "
                 "every k in 2..n for each exception type (incl. KeyboardInterrupt, SystemExit, GeneratorExit); "
-                "Solve must return and reflect exactly the k-1 completed trials. Nine exception types, each built with a message, without arguments or with several; the listener must have been told exactly the completed trials.",
+                "Solve must return and reflect exactly the k-1 completed trials. Nine exception types, each built with a message, without arguments or with several; the listener must have been told exactly the completed trials. The reported accuracy must be one a completed trial reached; a search resumed by a second Solve, and failures inside the local refinement, are checked the same way.",
                 note="All fault positions of the sampled runs are enumerated; the runs themselves are sampled.",
                 ref="3/C16"),
     "C17": dict(cat="exploration", tech="stateful property-based testing (Hypothesis RuleBasedStateMachine) on one "
@@ -145,19 +145,19 @@ CHECKS = {
     "C18": dict(cat="exploration", tech="enumeration of every constructor argument of every family (metadata) and of "
                 "all 2x1000 table rows against a 1e6-point grid + polishing of every local extremum",
                 text="Metadata well-formedness for every member; Hill/Shekel minimum, maximum and Lipschitz tables "
-                "recomputed from the functions (values 1e-4, locations 1e-4 of the range, constants 0.1%). Also: overwriting one instance's metadata arrays in place must not change siblings; the real function is evaluated at the published extremiser locations and at both ends of the box.",
+                "recomputed from the functions (values 1e-4, locations 1e-4 of the range, constants 0.1%). Also: overwriting one instance's metadata arrays in place must not change siblings; the real function is evaluated at the published extremiser locations and at both ends of the box. After the instance was used by a refining Solver and its evolvent, its declared metadata must be bit-identical.",
                 note="Vectorised formulas cross-checked against the real Calculate in the same run.", ref="3/C18"),
     "C19": dict(cat="exploration", tech="model-based stateful testing (Hypothesis RuleBasedStateMachine) of SearchData, "
                 "SearchDataDualQueue and CharacteristicsQueue against an ordered-set / priority-queue model, plus all "
                 "operation sequences up to length 6 over a small alphabet",
                 text="Insertions with/without hint, find, best-interval requests with stale entries, clears, refills "
                 "and traversals are compared with a sorted-list and a multiset-of-entries model; bounded queues against "
-                "the top-maxlen rule.", note="Preconditions of method.py's callers respected (distinct interior "
+                "the top-maxlen rule. Traversals are interleaved with look-ups and with each other; empty containers are traversed and refilled.", note="Preconditions of method.py's callers respected (distinct interior "
                 "coordinates, true right-neighbour hints, no NaN priorities). Characteristics are also changed by tiny relative steps (1e-16..1e-4).", ref="3/C19"),
     "C20": dict(cat="exploration", tech="property-based testing (Hypothesis) with a grid-membership oracle and a "
                 "metamorphic relation on the density parameter",
                 text="Every evaluation point of generated runs (density 2..12, N=2..5, arbitrary boxes) must be a "
-                "cell centre of the configured density; a centre of one density is never a centre of another. eps is drawn above and below the cell size.",
+                "cell centre of the configured density; a centre of one density is never a centre of another. eps is drawn above and below the cell size. Parameters may be assigned after construction, the same box handed again through SetBounds, a transient objective failure injected.",
                 note="Tolerance 1e-6 cell.", ref="3/C20"),
 }
 
